@@ -132,6 +132,13 @@ Definition whole_tree (c : cfg) : cfg := {|
   c_ignore_subdirs := false; c_paths := []; c_symlinks := c_symlinks c;
   c_max_inodes := c_max_inodes c; c_max_size := c_max_size c; c_fatal := c_fatal c; c_cancel := c_cancel c |}.
 
+(* the same configuration with other requested paths *)
+Definition set_paths (c : cfg) (ps : list path) : cfg := {|
+  c_exts := c_exts c; c_required := c_required c; c_statreq := c_statreq c; c_extract := c_extract c; c_pat := c_pat c;
+  c_skip_list := c_skip_list c; c_re := c_re c; c_glob := c_glob c; c_gitignore := c_gitignore c;
+  c_ignore_subdirs := c_ignore_subdirs c; c_paths := ps; c_symlinks := c_symlinks c;
+  c_max_inodes := c_max_inodes c; c_max_size := c_max_size c; c_fatal := c_fatal c; c_cancel := c_cancel c |}.
+
 (* clean relative paths: "." alone, or segments none of which is "." *)
 Definition canonical_path (p : path) : bool :=
   ln_eqb p [DOT] || (negb (match p with [] => true | _ => false end) && forallb (fun s => negb (N.eqb s DOT)) p).
